@@ -71,7 +71,7 @@ package aucoalesce
 //@ frame-fresh[C15]
 //@ requires forall j int :: lo(msgs) <= j && j < hi(msgs) ==> msgOK(at(msgs, j))
 //@ modifies alloc, auparse.AuditMessage.data, auparse.AuditMessage.error, auparse.AuditMessage.tags
-//@ ensures[C15] isNil(result1) ==> fresh(result0)
+//@ ensures[C15] isNil(result1) ==> fresh(result0) && result0.Data != nil && fresh(result0.Data)
 // C09: identity of the first record, or an error when there is no SYSCALL record.
 //@ requires len(msgs) >= 1
 //@ ensures[C09] isNil(result1) ==> result0 != nil && result0.Timestamp == msgs[0].Timestamp && result0.Sequence == msgs[0].Sequence && result0.Type == msgs[0].RecordType
@@ -103,7 +103,7 @@ package aucoalesce
 //@ func aucoalesce.setFileObject
 //@ frame-fresh[C15]
 //@ requires event != nil && pathIndexHint >= 0
-//@ modifies event.*, alloc
+//@ modifies event.File, event.Summary, alloc
 //@ loop 1 invariant event.File != nil && fresh(event.File) && (event.File.SELinux == nil || fresh(event.File.SELinux))
 // C09: the file summary mirrors the selected PATH record (path, a local of
 // setFileObject): the record at the hinted index, or the first later one that
@@ -141,4 +141,39 @@ package aucoalesce
 //@ func aucoalesce.addProcess
 //@ frame-fresh[C15]
 //@ requires event != nil && event.Data != nil
-//@ modifies event.*, mapOf(event.Data)
+//@ modifies event.Process, mapOf(event.Data)
+
+// CoalesceMessages. The normalisation tables are global state filled at init
+// from the embedded YAML; their well-formedness (entries non-nil, path index not
+// negative) is a precondition here and is checked on the actual tables by the
+// bounded stand-in tables-wellformed.
+//@ spec normOK(n *Normalization) bool := n != nil && n.ObjectPathIndex >= 0
+//@ spec tablesOK() bool := (forall k string :: k in syscallNorms ==> normOK(syscallNorms[k])) && (forall k string :: k in recordTypeNorms ==> (forall j int :: lo(recordTypeNorms[k]) <= j && j < hi(recordTypeNorms[k]) ==> normOK(at(recordTypeNorms[k], j))))
+//
+//@ func aucoalesce.CoalesceMessages
+//@ requires tablesOK()
+//@ requires forall j int :: lo(msgs) <= j && j < hi(msgs) ==> msgOK(at(msgs, j))
+// (msgs below is the slice after the trailing EOE record has been filtered out; the
+// clauses are split by group size only to spare the solver the case distinction)
+//@ ensures[C09] len(msgs) == 0 ==> result0 == nil && !isNil(result1)
+//@ ensures[C09] isNil(result1) ==> result0 != nil && len(msgs) >= 1
+//@ ensures[C09] !isNil(result1) ==> result0 == nil
+//@ ensures[C09] isNil(result1) && len(msgs) == 1 ==> result0.Sequence == at(msgs, lo(msgs)).Sequence
+//@ ensures[C09] isNil(result1) && len(msgs) == 1 ==> result0.Type == at(msgs, lo(msgs)).RecordType
+//@ ensures[C09] isNil(result1) && len(msgs) == 1 ==> result0.Timestamp == at(msgs, lo(msgs)).Timestamp
+//@ ensures[C09] isNil(result1) && len(msgs) >= 2 ==> result0.Sequence == at(msgs, lo(msgs)).Sequence
+//@ ensures[C09] isNil(result1) && len(msgs) >= 2 ==> result0.Type == at(msgs, lo(msgs)).RecordType
+//@ ensures[C09] isNil(result1) && len(msgs) >= 2 ==> result0.Timestamp == at(msgs, lo(msgs)).Timestamp
+// (a group of two or more records without a SYSCALL record: normalizeCompound's own clause; its error is returned unchanged)
+//
+// applyNormalization is verified as part of CoalesceMessages (inlined); its
+// selection loops keep the chosen normalisation well-formed.
+//@ func aucoalesce.applyNormalization
+//@ requires tablesOK() && event != nil && event.Data != nil
+//@ modifies event.*, mapOf(event.Data), elems(event.Warnings), alloc, envlog
+//@ ensures[C09] event.Sequence == old(event.Sequence)
+//@ ensures[C09] event.Type == old(event.Type)
+//@ ensures[C09] event.Timestamp == old(event.Timestamp)
+//@ ensures[C09] event.Data == old(event.Data)
+//@ loop 0 invariant norm == nil || normOK(norm)
+//@ loop 1 invariant norm == nil || normOK(norm)
